@@ -642,6 +642,11 @@ def rule_P5(ctx):
         m = _re.fullmatch(r"any\(\[(.+) for _c0 in channels\]\)|any\(\((.+) for _c0 in channels\)\)", t)
         inner = (m.group(1) or m.group(2)) if m else None
         ok = inner is not None and emptiness_by(ast.parse(inner, mode="eval").body, lambda e: isinstance(e, ast.Name) and e.id == "_c0") is True
+        if not ok:
+            # De Morgan: `not all(<ch is non-empty> for ch in channels)`
+            m = _re.fullmatch(r"not all\(\[(.+) for _c0 in channels\]\)|not all\(\((.+) for _c0 in channels\)\)", t)
+            inner = (m.group(1) or m.group(2)) if m else None
+            ok = inner is not None and emptiness_by(ast.parse(inner, mode="eval").body, lambda e: isinstance(e, ast.Name) and e.id == "_c0") is False
     if not ok:
         # loop form: for ch in channels: if <ch is empty>: raise StopIteration   (nothing else in the loop)
         for f in own_nodes(pn):
